@@ -146,7 +146,11 @@ def tpl_cmd(cls, m, k, i1, i2, i3, flag, g, n, setv, lk=0, _twin=False):
             for p in signature(member).parameters.values():
                 if p.name != "self" and p.name not in nsA:
                     return 1704
-            ta = w.spawn(session._exec_method_and_respond(member, **nsA))
+            try:
+                # exactly the call _parse_command makes: the command object first, the whole namespace as keywords
+                ta = w.spawn(session._exec_method_and_respond(member, **nsA))
+            except TypeError:
+                return 1703     # a namespace key collides with the session method's own parameters
 
         async def run_direct():
             try:
